@@ -890,5 +890,6 @@ pub fn run(ctx: &mut Ctx) {
     ctx.campaign("decoders", CampaignCfg::new(t.pick(300_000, 8_000_000)).shards(16), strategy, run_case);
     ctx.campaign("roundtrip-truncate", CampaignCfg::new(t.pick(6_000, 200_000)).shards(16), rt_strategy, run_rt);
     ctx.campaign("streams", CampaignCfg::new(t.pick(6_000, 200_000)).shards(16), stream_strategy, run_stream);
+    ctx.campaign("raw-sockets", CampaignCfg::new(t.pick(1_200, 25_000)).shards(16).shrink_iters(8), super::c19_raw::strategy, super::c19_raw::run_case);
     ctx.campaign("rogue-peer", CampaignCfg::new(t.pick(1_600, 40_000)).shards(16).shrink_iters(8), super::c19_rogue::strategy, super::c19_rogue::run_case);
 }
